@@ -8,7 +8,7 @@ CONSTANTS
   Shapes <- mc_Shapes
   Samplers <- mc_Samplers
   Profiles <- mc_Profiles
-  IngestPaths = {"msgp", "map"}
+  IngestPaths = {"msgp", "umsg", "map"}
   Crate <- mc_Crate
   Variants = {1}
   DecideHows = {"timer", "eject"}
@@ -16,5 +16,3 @@ CONSTANTS
 CHECK_DEADLOCK FALSE
 INVARIANTS TypeOK C20ExactlyClient C20BufferedUntouched C20OnlyDocumented C20Forwarding MemoSound MissingSound
 PROPERTIES C20ReadsArePure C20Monotone
-ACTION_CONSTRAINT Dump
-VIEW View
